@@ -162,4 +162,23 @@ CLAIMS = {
        'each loop its pattern (by reading; invalidated by any change of the loop text). Three order-dependent loops were found by this review '
        'and repaired (fix: commits 68f7ba5, e9f8c0d, 07c618b) in addition to the four of the design round.',
   technique='Coq theorems (order-independence of five loop patterns over all permutations) + source inventory regenerated per run + repeated-run differential check'),
+ 'C20': dict(
+  text='Executable Gallina model of the Cisco parser (go/pkg/cisco/parse.go: ParseConfig line loop, lookupCmd, matchCmd, postprocessParsed with '
+       'the ACL normalisation, transform-set references, route metric, aaa-server lines, checkReferences; IOS removeBanner) and of dstOfRoute / '
+       'routeVRF, in which every index and slice expression of the Go code is an operation that can panic. Theorems: for every text, raw or '
+       'not, every table of command descriptions that passes the boolean check tables_ok and every content of the name tables the outcome '
+       'is a configuration, an error message or the deliberate Incomplete-string panic, never a runtime panic; postprocessACLParts is total, '
+       'keeps the token count and collects at most five references; the route field extraction is total. The command descriptions and name '
+       'tables are regenerated from the source on every run through a build-tag hook (the real setupCmdDescr on cmdInfo of pkg/asa and '
+       'pkg/ios) and tables_ok of them is re-proved by computation. Tie: the real ParseConfig (hook dump of the parsed configuration, error or '
+       'panic) is compared with the model on test-data files and members of the family (whole parsed structure). Search: the property\'s '
+       'finite family (all five device types, device / Netspoc / IPv6 / raw / info files; quick: a stratified sample, thorough: all of it) '
+       'through the built drc, and token mutations of info, status, configuration and credentials files through do-approve and missing-approve.',
+  design_ref='DESIGN.md section 4, C20',
+  note='Partial: the theorem covers the Cisco parser and the route field extraction; the Cisco diff code, the Linux, NSX and PAN-OS parsers and '
+       'the info/status/config readers are decided by the enumerated family only (thorough tier: exhaustive over the family). Trusted: Coq '
+       'kernel; hook go/pkg/cisco/verif_hooks.go (build tag verif) and harness/cmd/nah/ciscoparse.go; byte-level model (ASCII white space). '
+       'Eight runtime panics found while modelling were repaired (F-C20-3..10); two deliberate panic(err) sites that the repository tests '
+       'expect are recorded as known findings (F-C20-1, F-C20-2).',
+  technique='Coq theorems (no runtime panic of a GoSlice-style parser model for all texts and all tables passing tables_ok) + tables regenerated from source + differential check of the parsed configuration + exhaustive run of the finite input family'),
 }
